@@ -1246,7 +1246,7 @@ def extra_checks(tier, seed, repo):
 UNITS = [QlQl(), QlmQlm(), Sij(), WCap(), SpatialCorr(), TimeCorr()]
 # callee contracts of other properties used at call sites: their units are re-verified with this check
 from contracts.common import callee_units as _callee_units   # noqa: E402
-UNITS = UNITS + _callee_units([('C02', None), ('C05', {'read_neighbors'}), ('C08', None)], UNITS)
+UNITS = UNITS + _callee_units([('C02', None), ('C05', {'read_neighbors'}), ('C08', None), ('C13', {'conditional_gr'}), ('C14', None)], UNITS)
 
 MANIFEST = {
     "text": "boo_3d.qlm_Qlm, ql_Ql, sij_ql_Ql, w_W_cap and utils.funcs.Wignerindex (real ASTs, re-read every run; symbolic frame number T, "
